@@ -668,7 +668,9 @@ func (vc *VC) execAppend(x *ssa.Call, c *ssa.CallCommon, st *State) {
 	newCap := vc.fresh("app.cap", "Int")
 	vc.assume(fmt.Sprintf("(>= %s %s)", newCap, newLen))
 	vc.noteWrite(st, hn, "(s-arr "+s+")")
-	vc.setHeap(st, hn, hs, fmt.Sprintf("(ite %s (store %s (s-arr %s) %s) (store %s %s %s))", fits, E, s, inNew, E, r, reNew))
+	tgt := vc.define("app.arr", "Int", fmt.Sprintf("(ite %s (s-arr %s) %s)", fits, s, r))
+	cont := vc.define("app.cont", "(Array Int "+es+")", fmt.Sprintf("(ite %s %s %s)", fits, inNew, reNew))
+	vc.setHeap(st, hn, hs, fmt.Sprintf("(store %s %s %s)", E, tgt, cont))
 	vc.setVal(x, fmt.Sprintf("(ite %s (mk-slice (s-arr %s) (s-off %s) %s (s-cap %s)) (mk-slice %s 0 %s %s))", fits, s, s, newLen, s, r, newLen, newCap))
 	// derived fact (holds in both branches): the result keeps the old elements
 	res := vc.vals[x]
